@@ -490,6 +490,24 @@ def run_case(ctx, seed, idx):
                             iface, pn, var.sig, s_), w, case)
                         return
                 ctx.count('getalls_ok')
+                # GetAll with an EMPTY interface name ("all interfaces"): every readable property whose name is declared on
+                # one interface only appears with its current value (names shared by two interfaces are left out of the
+                # comparison: the statement does not say which of the two an unqualified name means)
+                if (idx + len(w['history'])) % 3 == 0:
+                    w['history'].append(['getall-empty-interface'])
+                    reps, sigs = call('GetAll', 's', [''])
+                    if len(reps) == 1 and reps[0].mtype == RM.METHOD_RETURN and reps[0].fields.get('signature') == 'a{sv}':
+                        seen_ = reps[0].body[0]
+                        for (n_, pn_), spec_ in d.props.items():
+                            if pn_ in d.collisions or spec_[1] in ('write', 'none'):
+                                continue
+                            if pn_ not in seen_ or not R.plain_eq(seen_[pn_], norm(model[(n_, pn_)])):
+                                ctx.report('getall-empty-interface-stale', "GetAll('') reports %s as %r, its value is %r" % (
+                                    pn_, seen_.get(pn_, '<absent>'), model[(n_, pn_)]), w, case)
+                                return
+                        ctx.count('getalls_with_empty_interface_ok')
+                    else:
+                        ctx.count('getalls_with_empty_interface_refused')      # refusing the empty name is not judged
             if peer.ep.crashes:
                 ctx.report('crash', 'connection crashed with %r' % peer.ep.crashes[0], w, case)
                 return
